@@ -82,6 +82,46 @@ def adversarial_names(limit=None):
     yield "name::prefixes", {"names"}, _b({"n": I, "n_": I, "n_0": I, "n_0_": ("and", ["n", "n_"]), "n_0_0": ("xor", ["n_0_", "n_0"]), "n0": ("nor", ["n_0_0", "n"])}, ["n0", "n_0_"])
 
 
+def pseudo_random(count, seed=20260101):
+    """Deterministic pseudo-random acyclic circuits (own linear congruential generator - independent of hash seeds and of
+    Python's `random`): 2-4 inputs, 3-8 gates of any type at fan-in 1-4, occasional constants, outputs = every sink plus one
+    or two arbitrary nodes (possibly an input).  They add breadth where the hand-written corners add depth."""
+    state = [seed & 0x7FFFFFFF]
+
+    def rnd(n):
+        state[0] = (state[0] * 1103515245 + 12345) & 0x7FFFFFFF
+        return (state[0] >> 8) % n
+
+    I = ("input", [])
+    gate_types = ["and", "nand", "or", "nor", "xor", "xnor", "buf", "not"]
+    for ci in range(count):
+        k = 2 + rnd(3)
+        spec = {f"i{j}": I for j in range(k)}
+        pool = list(spec)
+        if rnd(4) == 0:
+            cname = f"k{rnd(2)}"
+            spec[cname] = (cname[1], [])
+            pool.append(cname)
+        for gi in range(3 + rnd(6)):
+            t = gate_types[rnd(len(gate_types))]
+            width = 1 if t in ("buf", "not") else 1 + rnd(min(4, len(pool)))
+            fi = []
+            while len(fi) < width:
+                c_ = pool[rnd(len(pool))]
+                if c_ not in fi:
+                    fi.append(c_)
+            name = f"g{gi}"
+            spec[name] = (t, fi)
+            pool.append(name)
+        used = {f for (t, fi) in spec.values() for f in fi}
+        outs = [n for n in spec if n not in used and spec[n][0] not in ("input",)] or [pool[-1]]
+        for _ in range(1 + rnd(2)):
+            extra = pool[rnd(len(pool))]
+            if extra not in outs:
+                outs.append(extra)
+        yield f"random::{ci}", {"random"}, _b(spec, outs)
+
+
 REINSERTED = ("feedthrough-and-gate", "controlling-constants", "constant-outputs", "single-input-gates", "net-and-its-buffer", "dead-logic-and-unobserved-input",
               "many-outputs-sharing-logic", "buffer-and-inverter-chains", "shared-subtree-under-two-outputs")
 
@@ -94,6 +134,7 @@ def corpus(tier="quick", want=None, exclude=()):
     # node iteration order is insertion order: some members again with their nodes inserted sinks-first
     items += [(f"{n}@sinks-first", set(t) | {"reinserted"}, reinserted(c, "sinks-first")) for n, t, c in list(items) if n in REINSERTED]
     items += list(adversarial_names(limit=None if tier == "thorough" else 24))
+    items += list(pseudo_random(10 if tier == "quick" else 150))
     for name, tags, c in items:
         if want is not None and not (tags & set(want)):
             continue
